@@ -11,11 +11,33 @@ Not decided: linking and running real binaries, ordering for arbitrary DAGs.
 import ast
 
 from ..consteval import const_eval
+from ..facts import Facts, direct, has, has_call, has_const, param_of
 from ..index import unparse, walk_no_nested
 from .. import query as Q
 
 OPT = 'bfg9000.options:'
 LK = 'bfg9000.builtins.link:'
+
+
+def _facts(ctx):
+    f = getattr(ctx, '_facts', None)
+    if f is None:
+        f = ctx._facts = Facts(ctx.repo)
+    return f
+
+
+def _attrs_read(F, fn, base_pred):
+    """Attribute names read from values whose access paths satisfy
+    base_pred (e.g. the ForwardOptions object)."""
+    out = set()
+    for g in F.reach(fn, 1):
+        if g.module is not fn.module:
+            continue
+        for n in ast.walk(g.node):
+            if isinstance(n, ast.Attribute) and isinstance(n.ctx, ast.Load) \
+                    and base_pred(F.atoms(n.value, g)):
+                out.add(n.attr)
+    return out
 
 
 def forward_fields(ctx):
@@ -26,91 +48,156 @@ def forward_fields(ctx):
              'forwarded libs; the final lib list is user libs followed by '
              'forwarded libs')
     repo = ctx.repo
+    F = _facts(ctx)
     fo = repo.cls(OPT + 'ForwardOptions')
     slots = const_eval(repo, fo.module, fo.attrs['__slots__'])
     Q.require(isinstance(slots, list) and len(slots) == 4,
               'ForwardOptions.__slots__')
-    so = repo.method(LK + 'StaticLink', '_fill_output')
+    so = F.fn(LK + 'StaticLink._fill_output')
+    ctors = F.calls_to(so, 'ForwardOptions', depth=1)
     written = set()
-    for c in Q.calls(so.node):
-        if unparse(c.func) == 'opts.ForwardOptions':
-            written |= {k.arg for k in c.keywords}
-    for n in ast.walk(so.node):
-        if isinstance(n, ast.Attribute) and unparse(n.value) == \
-                'primary.forward_opts':
-            written.add(n.attr)
-    li = repo.method(LK + 'Link', '__init__')
-    dl = repo.method(LK + 'DynamicLink', '_fill_options')
+    kw = {}
+    for e in ctors:
+        for k in e.call.keywords:
+            if k.arg:
+                written.add(k.arg)
+                kw[k.arg] = e.arg(kw=k.arg)
+    # slots filled after construction: <x>.forward_opts.<slot>.extend(..)
+    for e in F.effects(so, lambda e: e.name in ('extend', 'append',
+                                                'update', 'collect'),
+                       depth=1):
+        for a in e.recv():
+            for s_ in slots:
+                if has({a}, 'forward_opts', s_) or (
+                        has_call({a}, 'ForwardOptions') and has({a}, s_)):
+                    written.add(s_)
+    for t, v, n in F.stores(so):
+        for s_ in slots:
+            if has(t, 'forward_opts', s_):
+                written.add(s_)
+    li = F.fn(LK + 'Link.__init__')
+    dl = F.fn(LK + 'DynamicLink._fill_options')
     read = set()
     for f in (li, dl):
-        for n in ast.walk(f.node):
-            if isinstance(n, ast.Attribute) and unparse(n.value) == \
-                    'forward_opts':
-                read.add(n.attr)
-    for s in slots:
-        ctx.ob(R, 'slot|{}|written-by-static-link'.format(s), s in written,
+        read |= _attrs_read(F, f, lambda a: has_call(a, 'recurse') or
+                            param_of(direct(a), 'forward_opts'))
+    for s_ in slots:
+        ctx.ob(R, 'slot|{}|written-by-static-link'.format(s_), s_ in written,
                so.node, 'ForwardOptions.{} is never filled for a static '
-               'library'.format(s))
-        ctx.ob(R, 'slot|{}|read-by-final-link'.format(s), s in read, li.node,
-               'ForwardOptions.{} is never consumed by a link step'.format(s))
-    # values forwarded are the user's direct requirements
-    for c in Q.calls(so.node):
-        if unparse(c.func) == 'opts.ForwardOptions':
-            kw = {k.arg: unparse(k.value) for k in c.keywords}
-            ok = kw == {'link_options': 'self.user_options',
-                        'libs': 'self.user_libs',
-                        'packages': 'self.user_packages'}
-            ctx.ob(R, 'StaticLink._fill_output|forwards-user-requirements',
-                   ok, c, 'forwarded {}'.format(kw))
-    rec = repo.method(OPT + 'ForwardOptions', 'recurse')
-    t = unparse(rec.node)
-    ok = 'result.update(forward_opts)' in t and \
-        'do_recurse(result, forward_opts.libs)' in t and \
-        "getattr(i, 'forward_opts', None)" in t
+               'library'.format(s_))
+        ctx.ob(R, 'slot|{}|read-by-final-link'.format(s_), s_ in read,
+               li.node, 'ForwardOptions.{} is never consumed by a link '
+               'step'.format(s_))
+    ok = bool(ctors) and has(kw.get('link_options', ()), 'self',
+                             'user_options') and \
+        has(kw.get('libs', ()), 'self', 'user_libs') and \
+        has(kw.get('packages', ()), 'self', 'user_packages')
+    ctx.ob(R, 'StaticLink._fill_output|forwards-user-requirements', ok,
+           so.node, 'a static library does not forward the link options, '
+           'libraries and packages its user gave')
+    st = [v for t, v, n in F.stores(so) if has(t, 'forward_opts')]
+    ok = bool(st) and all(has_call(v, 'ForwardOptions') for v in st)
+    ctx.ob(R, 'StaticLink._fill_output|stored-on-primary-output', ok,
+           so.node, 'the forwarded options are not attached to the library')
+    rec = F.fn(OPT + 'ForwardOptions.recurse')
+    ups = F.effects(rec, lambda e: e.name == 'update', depth=1)
+    recs = [e for e in F.effects(rec, lambda e: True, depth=1)
+            if e.fn is not rec and e.name == e.fn.node.name]
+    ok = bool(ups) and all(has(e.all_args(), 'forward_opts')
+                           for e in ups) and bool(recs) and all(
+        has(e.all_args(), 'forward_opts', 'libs') for e in recs) and \
+        has_call(F.returns(rec), 'cls')
     ctx.ob(R, 'ForwardOptions.recurse|transitive', ok, rec.node,
            'requirements of static libraries are not collected '
            'transitively')
-    up = repo.method(OPT + 'ForwardOptions', 'update')
-    ok = 'for i in self.__slots__' in unparse(up.node) and \
-        'getattr(self, i).extend(getattr(rhs, i))' in unparse(up.node)
+    up = F.fn(OPT + 'ForwardOptions.update')
+    ext = F.effects(up, lambda e: e.name == 'extend', depth=0)
+    ok = bool(ext) and all(
+        has(e.recv() | e.heads(), '__slots__') or has_call(
+            e.recv(), 'getattr') for e in ext) and all(
+        param_of(e.all_args(), Q.params(up.node)[1]) and has(
+            e.all_args(), '__slots__') for e in ext) and not any(
+        isinstance(n, (ast.If, ast.IfExp)) for n in ast.walk(up.node)) and \
+        not any(g.ifs for n in ast.walk(up.node)
+                if isinstance(n, ast.comprehension) for g in [n])
     ctx.ob(R, 'ForwardOptions.update|all-slots', ok, up.node,
-           'update() does not merge every slot')
-    vals = {}
-    for n in ast.walk(li.node):
-        if isinstance(n, ast.Assign):
-            vals[unparse(n.targets[0])] = unparse(n.value)
-    ok = vals.get('forward_opts') == \
-        'opts.ForwardOptions.recurse(self.user_libs)'
-    ctx.ob(R, 'Link.__init__|recurse-over-user-libs', ok, li.node, '')
-    ok = vals.get('self.libs') == 'self.user_libs + forward_opts.libs'
-    ctx.ob(R, 'Link.__init__|dependents-before-dependencies', ok, li.node,
-           'link order is {}: static libraries must precede the libraries '
-           'they need'.format(vals.get('self.libs')))
-    ok = vals.get('self.packages') == \
-        'self.user_packages + forward_opts.packages'
-    ctx.ob(R, 'Link.__init__|packages-forwarded', ok, li.node, '')
-    ok = 'compile_opts.extend(forward_opts.compile_options)' in unparse(
-        li.node)
-    ctx.ob(R, 'Link.__init__|compile-options-forwarded', ok, li.node, '')
-    ok = 'forward_opts.link_options' in unparse(dl.node) and \
-        '(opts.lib(i) for i in self.libs)' in unparse(dl.node)
+           'update() does not merge every slot (unfiltered)')
+    libs = F.stored(li, 'libs') or set()
+    pk = F.stored(li, 'packages') or set()
+    ok = has(libs, 'recurse()', 'libs') and (
+        has(libs, 'self', 'user_libs') or param_of(libs, 'libs'))
+    ctx.ob(R, 'Link.__init__|recurse-over-user-libs', ok and any(
+        has(e.arg(0), 'user_libs') or param_of(e.arg(0), 'libs')
+        for e in F.calls_to(li, 'recurse', depth=0)), li.node,
+        'forwarded requirements are not collected from the user\'s libs')
+    # order: user libs first, forwarded libs after
+    order_ok = False
+    for n in walk_no_nested(li.node):
+        if isinstance(n, ast.Assign) and any(
+                isinstance(t, ast.Attribute) and t.attr == 'libs'
+                for t in n.targets):
+            q = F.flow.sequence(n.value, li)
+            v = n.value
+            if isinstance(v, ast.BinOp) and isinstance(v.op, ast.Add):
+                l, r = F.atoms(v.left, li), F.atoms(v.right, li)
+                order_ok = (has(l, 'user_libs') or param_of(l, 'libs')) and \
+                    has(r, 'recurse()', 'libs') and not has(
+                        l, 'recurse()')
+            elif isinstance(v, ast.Call):
+                a = [F.atoms(x, li) for x in v.args]
+                order_ok = len(a) >= 2 and has(a[0], 'user_libs') and has(
+                    a[-1], 'recurse()', 'libs')
+    ctx.ob(R, 'Link.__init__|dependents-before-dependencies', order_ok,
+           li.node, 'link order: static libraries must precede the '
+           'libraries they need (user libs, then forwarded libs)')
+    ok = has(pk, 'recurse()', 'packages') and (
+        has(pk, 'user_packages') or param_of(pk, 'packages'))
+    ctx.ob(R, 'Link.__init__|packages-forwarded', ok, li.node,
+           'forwarded packages are not added to the link')
+    ok = any(has(e.all_args(), 'recurse()', 'compile_options')
+             for e in F.effects(li, lambda e: e.name in ('extend',
+                                                         'collect'),
+                                depth=0))
+    ctx.ob(R, 'Link.__init__|compile-options-forwarded', ok, li.node,
+           'forwarded compile options do not reach the compile steps')
+    cols = F.effects(dl, lambda e: e.name in ('collect', 'extend',
+                                              'option_list'), depth=0)
+    a = set()
+    for e in cols:
+        a |= e.all_args()
+    ok = has(a, 'forward_opts', 'link_options') and has_call(a, 'lib') and \
+        has(a, 'self', 'libs')
     ctx.ob(R, 'DynamicLink._fill_options|libs+forwarded-link-options', ok,
            dl.node, 'the final link does not receive every (forwarded) '
            'library / link option')
-    # de-duplicating option list keeps first occurrence
-    ap = repo.method(OPT + 'option_list', 'append')
-    ok = 'not any((option.matches(i) for i in self._options))' in unparse(
-        ap.node) and 'stringy_types' in unparse(ap.node)
+    ap = F.fn(OPT + 'option_list.append')
+    aps = [e for e in F.effects(ap, lambda e: e.name == 'append', depth=0)
+           if has(e.recv(), 'self', '_options')]
+    ctl = set()
+    for e in aps:
+        ctl |= e.control()
+    ok = bool(aps) and has_call(ctl, 'matches') and has(
+        ctl, 'stringy_types') and has(ctl, 'self', '_options')
     ctx.ob(R, 'option_list.append|dedup-semantic-options-only', ok, ap.node,
            'option_list.append changed its de-duplication')
-    # runtime deps
-    fo_ = repo.method(LK + 'DynamicLink', '_fill_output')
-    ok = 'runtime_deps.extend((i.runtime_file for i in self.libs if ' \
-        'i.runtime_file))' in unparse(fo_.node)
+    fo_ = F.fn(LK + 'DynamicLink._fill_output')
+    ex = [e for e in F.effects(fo_, lambda e: e.name in ('extend',
+                                                         'append'),
+                               depth=0)
+          if has(e.recv() | e.heads(), 'runtime_deps')]
+    ok = bool(ex) and all(has(e.all_args(), 'self', 'libs',
+                              'runtime_file') for e in ex)
     ctx.ob(R, 'DynamicLink._fill_output|runtime-deps', ok, fo_.node,
            'shared libraries needed at run time are not recorded')
-    ok = 'primary.linktime_deps.extend(self.user_libs)' in unparse(so.node)
-    ctx.ob(R, 'StaticLink._fill_output|linktime-deps', ok, so.node, '')
+    ex = [e for e in F.effects(so, lambda e: e.name in ('extend',
+                                                        'append'),
+                               depth=0)
+          if has(e.recv() | e.heads(), 'linktime_deps')]
+    ok = bool(ex) and all(has(e.all_args(), 'self', 'user_libs')
+                          for e in ex)
+    ctx.ob(R, 'StaticLink._fill_output|linktime-deps', ok, so.node,
+           'libraries a static library needs at link time are not '
+           'recorded')
 
 
 def rpath_origin(ctx):
@@ -119,63 +206,97 @@ def rpath_origin(ctx):
              'relative to $ORIGIN; shared libraries get a soname whenever an '
              'output is known; -rpath flags are emitted from the collected '
              'rpaths')
-    repo = ctx.repo
-    lr = repo.func('bfg9000.tools.patchelf:local_rpath')
-    hit = [n for n in ast.walk(lr.node) if isinstance(n, ast.Assign) and
-           isinstance(n.value, ast.Call) and Q.callee_attr(n.value) ==
-           'relpath']
-    ok = len(hit) == 1 and unparse(Q.kwarg(hit[0].value, 'prefix') or
-                                   ast.Constant(0)) == "'$ORIGIN'" and \
-        unparse(hit[0].value.args[0]) == 'output.path.parent()'
+    F = _facts(ctx)
+    lr = F.fn('bfg9000.tools.patchelf:local_rpath')
+    rels = [e for e in F.effects(lr, lambda e: e.name == 'relpath', depth=0)]
+    ok = bool(rels) and all(
+        has_const(e.arg(1, kw='prefix'), '$ORIGIN') and
+        has(e.arg(0), 'output', 'path', 'parent()') and
+        has(e.recv(), 'runtime_file', 'path', 'parent()') for e in rels) \
+        and any(a.startswith('library.runtime_file.path.parent()') and
+                'relpath(' in a for a in F.returns(lr))
     ctx.ob(R, 'local_rpath|$ORIGIN-relative', ok, lr.node,
            'rpath to a build-dir library is not relative to $ORIGIN of the '
            'output')
-    if hit:
-        par = hit[0]._parent
-        ok = isinstance(par, ast.If) and unparse(par.test) == \
-            'rpath.root == output.path.root'
-        ctx.ob(R, 'local_rpath|same-root-branch', ok, hit[0], '')
-    ok = "rpath.root != Root.absolute and rpath.root not in InstallRoot" in \
-        unparse(lr.node)
+    ok = bool(rels) and all(any(
+        op == 'Eq' and has(l | r, 'output', 'path', 'root') and has(
+            l | r, 'runtime_file') for op, l, r in
+        F.guard_compares(e.call, lr)) for e in rels)
+    ctx.ob(R, 'local_rpath|same-root-branch', ok, lr.node,
+           'the $ORIGIN-relative form is not restricted to libraries under '
+           'the same root as the output')
+    ok = bool(rels) and all(any(
+        op == 'NotEq' and has(l | r, 'Root', 'absolute')
+        for op, l, r in F.guard_compares(e.call, lr)) and any(
+        op == 'NotIn' and has(r, 'InstallRoot')
+        for op, l, r in F.guard_compares(e.call, lr)) for e in rels)
     ctx.ob(R, 'local_rpath|only-absolute-kept', ok, lr.node,
-           'absolute rpaths are produced for non-absolute libraries')
-    ok = unparse(lr.node.body[0]).startswith(
-        'if not library.runtime_file:')
-    ctx.ob(R, 'local_rpath|static-libs-skip', ok, lr.node, '')
-    # relpath(prefix=...) joins the prefix
-    rp = repo.method('bfg9000.platforms.basepath:BasePath', 'relpath')
-    ok = 'posixpath.join(prefix, rel)' in unparse(rp.node) and \
-        'if prefix and rel == posixpath.curdir:' in unparse(rp.node)
-    ctx.ob(R, 'BasePath.relpath|prefix', ok, rp.node, '')
-    fl = repo.method('bfg9000.tools.cc.linker:CcLinker', 'flags')
-    t = unparse(fl.node)
-    ok = 'rp, rplink = self._local_rpath(i.library, output)' in t and \
-        'rpaths.extend(iterate(rp))' in t and \
-        "flags.append('-Wl,-rpath,' + safe_str.join(rpaths, ':'))" in t
+           'absolute/installed library locations are rewritten relative '
+           'to $ORIGIN (or build-dir ones are not)')
+    none_rets = [r for r in Q.returns(lr.node)
+                 if r.value is None or isinstance(r.value, ast.Constant)
+                 and r.value.value is None]
+    ok = any(any(not pos and has(F.atoms(t, lr), 'library', 'runtime_file')
+                 for t, pos in F.guard_truths(r, lr)) for r in none_rets)
+    ctx.ob(R, 'local_rpath|static-libs-skip', ok, lr.node,
+           'libraries without a run-time file are given an rpath')
+    rp = F.fn('bfg9000.platforms.basepath:BasePath.relpath')
+    joins = [e for e in F.effects(rp, lambda e: e.name == 'join', depth=0)
+             if param_of(e.arg(0), 'prefix')]
+    ok = bool(joins) and param_of(F.returns(rp), 'prefix')
+    ctx.ob(R, 'BasePath.relpath|prefix', ok, rp.node,
+           'relpath() ignores its prefix')
+    fl = F.fn('bfg9000.tools.cc.linker:CcLinker.flags')
+    r = F.returns(fl)
+    ok = has_const(r, '-Wl,-rpath,') and has_call(r, 'local_rpath')
+    lrs = F.calls_to(fl, '_local_rpath', depth=0)
+    ok = ok and bool(lrs) and all(has(e.arg(0), 'library') and param_of(
+        e.arg(1), 'output') for e in lrs)
     ctx.ob(R, 'CcLinker.flags|rpath-from-libs', ok, fl.node,
            'the rpath of each linked library is not turned into a '
            '-Wl,-rpath flag')
-    lrp = repo.method('bfg9000.tools.cc.linker:CcLinker', '_local_rpath')
-    ok = 'patchelf.local_rpath(self.env, library, output)' in unparse(
-        lrp.node)
-    ctx.ob(R, 'CcLinker._local_rpath|uses-local_rpath', ok, lrp.node, '')
-    sf = repo.method('bfg9000.tools.cc.linker:CcSharedLibraryLinker',
-                     'flags')
-    ok = any(isinstance(n, ast.If) and unparse(n.test) == 'output' and
-             'flags.extend(self._soname(first(output)))' in unparse(n)
-             for n in walk_no_nested(sf.node))
+    lrp = F.fn('bfg9000.tools.cc.linker:CcLinker._local_rpath')
+    es = F.calls_to(lrp, 'local_rpath', depth=0)
+    ok = bool(es) and all(param_of(e.arg(1), 'library') and param_of(
+        e.arg(2), 'output') for e in es) and has_call(
+        F.returns(lrp), 'local_rpath')
+    ctx.ob(R, 'CcLinker._local_rpath|uses-local_rpath', ok, lrp.node,
+           'the linker does not take its rpath from local_rpath()')
+    sf = F.fn('bfg9000.tools.cc.linker:CcSharedLibraryLinker.flags')
+    sn_calls = F.calls_to(sf, '_soname', depth=0)
+    ok = bool(sn_calls) and all(
+        param_of(e.arg(0), 'output') and
+        {a for a in e.control() if not a.startswith('const:')} <=
+        {'param:output'} for e in sn_calls) and has_call(
+        F.returns(sf), '_soname')
     ctx.ob(R, 'CcSharedLibraryLinker.flags|soname', ok, sf.node,
            'shared libraries are linked without a soname (raw-path linking '
            'would record the build path)')
-    sn = repo.method('bfg9000.tools.cc.linker:CcSharedLibraryLinker',
-                     '_soname')
-    ok = "['-Wl,-soname,' + soname.path.basename()]" in unparse(sn.node)
+    sn = F.fn('bfg9000.tools.cc.linker:CcSharedLibraryLinker._soname')
+    r = F.returns(sn)
+    ok = has_const(r, '-Wl,-soname,') and has(r, 'path', 'basename()')
     ctx.ob(R, 'CcSharedLibraryLinker._soname|basename', ok, sn.node,
            'soname is not the bare file name')
-    ll = repo.method('bfg9000.tools.cc.linker:CcLinker', '_link_lib')
-    ok = 'if raw_link and library.creator:' in unparse(ll.node)
+    ll = F.fn('bfg9000.tools.cc.linker:CcLinker._link_lib')
+    raw = [r_ for r_ in Q.returns(ll.node) if r_.value is not None and
+           direct(F.atoms(r_.value, ll)) == {'library.path'}]
+    ok = False
+    for r_ in raw:
+        gs = F.guards_pol(r_, ll)
+        pos_atoms = set()
+        for t, pos in gs:
+            if pos:
+                pos_atoms |= F.atoms(t, ll)
+        if has(pos_atoms, 'SharedLibrary'):
+            ok = param_of(pos_atoms, 'raw_link') and has(
+                pos_atoms, 'library', 'creator')
     ctx.ob(R, 'CcLinker._link_lib|raw-path-only-for-own-shared-libs', ok,
-           ll.node, '')
+           ll.node, 'a shared library that was not built here (no known '
+           'soname) is linked by raw path')
+
+
+def _allocs_ret(F, fn):
+    return {a for a in F.returns(fn) if a.startswith('alloc:')}
 
 
 def link_words(ctx):
@@ -185,22 +306,46 @@ def link_words(ctx):
              '--no-whole-archive pairs and repeated -framework / -u words '
              'must survive); forwarded options are merged without dropping '
              'repeated words')
-    repo = ctx.repo
-    lf = repo.method('bfg9000.tools.cc.linker:CcLinker', 'lib_flags')
-    ext = [c for c in Q.calls(lf.node) if unparse(c.func) == 'flags.extend']
-    ok = len(ext) == 1 and isinstance(ext[0].args[0], ast.Call) and \
-        unparse(ext[0].args[0].func) == 'self._link_lib'
+    F = _facts(ctx)
+    lf = F.fn('bfg9000.tools.cc.linker:CcLinker.lib_flags')
+    adds = [e for e in F.effects(lf, lambda e: e.name in ('extend',
+                                                          'append'),
+                                 depth=0)
+            if has_call(e.all_args(shallow=True), '_link_lib')]
+    ok = bool(adds) and all(
+        not any(has_call(e.all_args(shallow=True), x)
+                for x in ('uniques', 'set', 'if', 'filter', 'sorted',
+                          'frozenset')) and
+        _allocs_ret(F, lf) & {a for a in e.recv() if a.startswith('alloc:')}
+        for e in adds)
     ctx.ob(R, 'CcLinker.lib_flags|extend(_link_lib(...))', ok, lf.node,
-           'the words of a library are filtered before they reach the link '
-           'line: {}'.format(unparse(ext[0].args[0])[:80] if ext else None))
-    up = repo.method(OPT + 'ForwardOptions', 'update')
-    ok = 'getattr(self, i).extend(getattr(rhs, i))' in unparse(up.node) and \
+           'the words of a library are filtered / de-duplicated before '
+           'they reach the link line')
+    up = F.fn(OPT + 'ForwardOptions.update')
+    ok = bool(F.effects(up, lambda e: e.name == 'extend', depth=0)) and \
         not any(isinstance(n, (ast.If, ast.IfExp)) for n in ast.walk(
             up.node))
     ctx.ob(R, 'ForwardOptions.update|plain-extend', ok, up.node,
            'forwarded options are filtered while merging')
-    ap = repo.method(OPT + 'option_list', 'append')
-    ok = 'isinstance(option, safe_str.stringy_types) or' in unparse(ap.node)
+    ap = F.fn(OPT + 'option_list.append')
+    aps = [e for e in F.effects(ap, lambda e: e.name == 'append', depth=0)
+           if has(e.recv(), 'self', '_options')]
+    # a string option is appended whatever the list already holds: the test
+    # for stringy types short-circuits the `matches` search
+    ok = False
+    for e in aps:
+        for t in F.guards(e.call, ap):
+            if isinstance(t, ast.BoolOp) and isinstance(t.op, ast.Or):
+                first_ = F.atoms(t.values[0], ap)
+                if has(first_, 'stringy_types') and has_call(
+                        first_, 'isinstance'):
+                    ok = True
+    if not ok:
+        # or: an early, separate branch for strings
+        ok = any(all(has(F.atoms(t, ap), 'stringy_types')
+                     for t, pos in F.guards_pol(e.call, ap) if pos) and
+                 any(pos for t, pos in F.guards_pol(e.call, ap))
+                 for e in aps)
     ctx.ob(R, 'option_list.append|strings-never-deduplicated', ok, ap.node,
            'raw string options are de-duplicated')
 
